@@ -24,11 +24,19 @@ Bump(c, name) == [c EXCEPT ![name] = @ + 1]
 Shape(p) == IF p = <<>> THEN "root"
             ELSE IF \E j \in 1..Len(p) : IsF(p[j]) /\ NeedsQuotes(p[j].fc) THEN "quoted-field" ELSE "plain"
 
+\* a field the VRL lexer does not take unquoted although the renderer leaves it unquoted: it starts
+\* with a digit, or is a lone underscore
+LexerHostile(p) == \E j \in 1..Len(p) : IsF(p[j]) /\ ~NeedsQuotes(p[j].fc)
+                                          /\ (p[j].fc[1] \in DigitSet \/ p[j].fc = <<"_">>)
+
 RtLaws(r) ==
   (IF r.parsed.ok /\ r.parsed.p = r.p THEN <<>> ELSE << "R1-ValuePathRoundTrip" >>)
   \o (IF r.serde.ok /\ r.serde.p = r.p THEN <<>> ELSE << "R1-ValuePathStringConversion" >>)
   \o (IF \A j \in 1..Len(r.tgt) : r.tgt[j].parsed.ok /\ r.tgt[j].parsed.pre = r.tgt[j].pre /\ r.tgt[j].parsed.p = r.p
         THEN <<>> ELSE << "R1-TargetPathRoundTrip" >>)
+  \* the rendered target path, written in VRL source, is a query of exactly that location
+  \o (IF \A j \in 1..Len(r.tgt) : r.tgt[j].vrl.ok /\ r.tgt[j].vrl.pre = r.tgt[j].pre /\ r.tgt[j].vrl.p = r.p
+        THEN <<>> ELSE << "R2-RenderedPathIsThatVrlPath" >>)
   \o (IF \A j \in 1..Len(r.tgt) : r.tgt[j].serde.ok /\ r.tgt[j].serde.pre = r.tgt[j].pre /\ r.tgt[j].serde.p = r.p
         THEN <<>> ELSE << "R1-TargetPathStringConversion" >>)
 
@@ -36,7 +44,10 @@ T_Rt ==
   /\ l <= Len(Rec) /\ Ev.e = "pathrt"
   /\ LET ls == RtLaws(Ev) IN
      /\ viols' = (IF ls = <<>> THEN viols
-                  ELSE Append(viols, [prop |-> "C20", rule |-> ls[1], at |-> Shape(Ev.p), prog |-> 0, line |-> l,
+                  ELSE Append(viols, [prop |-> "C20", rule |-> ls[1],
+                                      at |-> (IF ls[1] = "R2-RenderedPathIsThatVrlPath" /\ LexerHostile(Ev.p)
+                                              THEN "unquoted-field-the-lexer-rejects" ELSE Shape(Ev.p)),
+                                      prog |-> 0, line |-> l,
                                       what |-> [p |-> Ev.p, text |-> Ev.text, all |-> ls]]))
      /\ divs' = (IF Ev.text = Render(Ev.p) \/ Len(divs) >= 20 THEN divs
                  ELSE Append(divs, [prop |-> "D", rule |-> "Render", at |-> "PathSyntax.tla", line |-> l,
